@@ -54,13 +54,13 @@ def d11_1(ctx):
     bad = {k: v for k, v in cmds.items() if not (isinstance(v, bytes) and len(v) == 2)}
     ctx.check(not bad, ckey("pycomm3.cip.services:EncapsulationCommands", "width"), ctx.model.find_class("EncapsulationCommands").node, "all command codes are 2 bytes", f"command codes not 2 bytes: {bad}")
     drv = ctx.model.cls(f"{CD}:CIPDriver")
-    ctxw = None
-    for n in walk(drv.methods["__init__"]):
-        if isinstance(n, ast.Dict):
-            for k, v in zip(n.keys, n.values):
-                if k is not None and ctx.folder.eval(k, drv.module) == "context":
-                    vv = ctx.folder.eval(v, drv.module)
-                    ctxw = len(vv) if isinstance(vv, bytes) else None
+    from .common import initial_cfg
+
+    cfg0, why = initial_cfg(ctx)  # (what the constructor leaves in _cfg, however it assembles it)
+    if cfg0 is None:
+        ctx.undecided(ckey(f"{CD}:CIPDriver.__init__", "context"), drv.methods["__init__"], why)
+        return
+    ctxw = len(cfg0["context"]) if isinstance(cfg0.get("context"), bytes) else None
     total = 2 + 2 + 4 + 4 + (ctxw or 0) + 4
     hs = ctx.folder.module_value("pycomm3.const", "HEADER_SIZE")
     ctx.check(ctxw == 8 and total == sp["size"] == hs, ckey(f"{CD}:CIPDriver.__init__", "context"), drv.methods["__init__"], "sender context is 8 bytes; header totals 24 = HEADER_SIZE",
@@ -160,12 +160,13 @@ def d11_4(ctx):
     _emit(ctx, {"session-request"})
     _session_rule(ctx)
     drv = ctx.model.cls(f"{CD}:CIPDriver")
-    pv = None
-    for n in walk(drv.methods["__init__"]):
-        if isinstance(n, ast.Dict):
-            for k, v in zip(n.keys, n.values):
-                if k is not None and ctx.folder.eval(k, drv.module) == "protocol version":
-                    pv = ctx.folder.eval(v, drv.module)
+    from .common import initial_cfg
+
+    cfg0, why = initial_cfg(ctx)
+    if cfg0 is None:
+        ctx.undecided(ckey(f"{PE}:RegisterSessionRequestPacket", "body"), drv.methods["__init__"], why)
+        return
+    pv = cfg0.get("protocol version")
     body = sp["register_session_body"]["fields"]
     reg = ctx.model.cls(f"{PE}:RegisterSessionRequestPacket")
     ctx.check(pv == bytes.fromhex(body[0]["value"]), ckey(reg.key, "body"), drv.methods["__init__"], "the driver registers with protocol version 1", f"the configured protocol version is {pv!r}; Register Session carries version {body[0]['value']}")
@@ -228,12 +229,13 @@ def d11_6(ctx):
     from .driver import _send_rule
 
     _send_rule(ctx)
-    opt = None
-    for n in walk(drv.methods["__init__"]):
-        if isinstance(n, ast.Dict):
-            for k, v in zip(n.keys, n.values):
-                if k is not None and ctx.folder.eval(k, drv.module) == "option":
-                    opt = ctx.folder.eval(v, drv.module)
+    from .common import initial_cfg
+
+    cfg0, why = initial_cfg(ctx)
+    if cfg0 is None:
+        ctx.undecided(ckey(drv.key + ".__init__", "option"), drv.methods["__init__"], why)
+        return
+    opt = cfg0.get("option", "<absent>")
     ctx.check(opt == 0, ckey(drv.key + ".__init__", "option"), drv.methods["__init__"], "options field is 0", f"options configured as {opt!r}, the header requires 0")
     writers = {"_session": [], "_target_cid": []}
     for c in ctx.model.subclasses(drv):
